@@ -76,7 +76,7 @@ Print Assumptions C10_accepted_relations_exist_partial.
 
 Theorem C10_relation_resolves_iff : forall e ctes rel,
   (exists t, qc_get_table e ctes rel = Ok t) <->
-  (assoc ctes (tn_name rel) <> None \/ cat_get_table (env_cat e) rel <> None).
+  ((tn_schema rel = "" /\ assoc ctes (tn_name rel) <> None) \/ cat_get_table (env_cat e) rel <> None).
 Proof. exact relation_resolves_iff. Qed.
 Print Assumptions C10_relation_resolves_iff.
 
